@@ -11,10 +11,37 @@ void _List_node_base::swap(_List_node_base& x, _List_node_base& y) noexcept {
   if (x._M_next != &x) { if (y._M_next != &y) { std::swap(x._M_next, y._M_next); std::swap(x._M_prev, y._M_prev); x._M_next->_M_prev = x._M_prev->_M_next = &x; y._M_next->_M_prev = y._M_prev->_M_next = &y; }
     else { y._M_next = x._M_next; y._M_prev = x._M_prev; y._M_next->_M_prev = y._M_prev->_M_next = &y; x._M_next = x._M_prev = &x; } }
   else if (y._M_next != &y) { x._M_next = y._M_next; x._M_prev = y._M_prev; x._M_next->_M_prev = x._M_prev->_M_next = &x; y._M_next = y._M_prev = &y; } }
-// growth policy model: table sizes 1,3,7,17,37,79: semantics of the map do not depend on it
+// libstdc++'s prime rehash policy, integer-only (max_load_factor is 1.0 unless user code changes it; eventpp never does).
+// Faithful to src/c++11/hashtable_c++0x.cc for that load factor, so that allocation counts match the real library
+// (needed for native replay of fault-injection paths: every operator new is a fault point).
+static const unsigned long vf_primes[] = { 2ul, 3ul, 5ul, 7ul, 11ul, 13ul, 17ul, 19ul, 23ul, 29ul, 31ul, 37ul, 41ul, 43ul, 47ul, 53ul, 59ul, 61ul, 67ul, 71ul, 73ul, 79ul,
+	83ul, 89ul, 97ul, 103ul, 109ul, 113ul, 127ul, 137ul, 139ul, 149ul, 157ul, 167ul, 179ul, 193ul, 199ul, 211ul, 227ul, 241ul, 257ul, 277ul, 293ul, 313ul, 337ul, 359ul, 383ul,
+	409ul, 439ul, 467ul, 503ul, 541ul, 577ul, 619ul, 661ul, 709ul, 761ul, 823ul, 887ul, 953ul, 1031ul, 1109ul, 1193ul, 1289ul, 1381ul, 1493ul, 1613ul, 1741ul, 1879ul, 2029ul };
+std::size_t _Prime_rehash_policy::_M_next_bkt(std::size_t n) const {
+	static const unsigned char fast_bkt[] = { 2, 2, 2, 3, 5, 5, 7, 7, 11, 11, 11, 11, 13, 13 };
+	if (n < sizeof(fast_bkt)) {
+		if (n == 0) return 1;
+		_M_next_resize = fast_bkt[n];          // floor(fast_bkt[n] * 1.0)
+		return fast_bkt[n];
+	}
+	std::size_t r = vf_primes[sizeof(vf_primes) / sizeof(vf_primes[0]) - 1];
+	for (std::size_t i = 0; i < sizeof(vf_primes) / sizeof(vf_primes[0]); i++) if (vf_primes[i] >= n) { r = vf_primes[i]; break; }
+	_M_next_resize = r;
+	return r;
+}
 std::pair<bool, std::size_t> _Prime_rehash_policy::_M_need_rehash(std::size_t n_bkt, std::size_t n_elt, std::size_t n_ins) const {
-  std::size_t need = n_elt + n_ins; if (need <= n_bkt) return {false, 0};
-  static const std::size_t tbl[] = {3,7,17,37,79,163,331}; for (std::size_t t : tbl) if (t >= need) return {true, t}; return {true, need*2+1}; }
+	if (n_elt + n_ins > _M_next_resize) {
+		std::size_t min_bkts = n_elt + n_ins;
+		if (_M_next_resize == 0 && min_bkts < 11) min_bkts = 11;
+		if (min_bkts >= n_bkt) {
+			std::size_t want = min_bkts + 1; if (n_bkt * 2 > want) want = n_bkt * 2;
+			return { true, _M_next_bkt(want) };
+		}
+		_M_next_resize = n_bkt;
+		return { false, 0 };
+	}
+	return { false, 0 };
+}
 }}
 
 // ---- red-black tree support (std::map / std::set): re-implementation of libstdc++'s tree.cc algorithms
